@@ -372,7 +372,8 @@ Config(name) ==
               \cup ChanReqs("c2", {<<>>, <<O("h1", 1)>>}, FALSE)
               \cup {[op |-> "IssueInvoice", h |-> "h1", a |-> 1],
                     [op |-> "AddInvoice", h |-> "h1", a |-> 1], [op |-> "Heartbeat"], [op |-> "Restart"]}
-              \cup (IF name = "issuex" THEN {[op |-> "IssueInvoice", h |-> "h1", a |-> 2], [op |-> "Tick"]} ELSE {})]
+              \cup (IF name = "issuex" THEN {[op |-> "IssueInvoice", h |-> "h1", a |-> 2], [op |-> "Tick"],
+                                             [op |-> "AddInvoice", h |-> "h1", a |-> 0]} ELSE {})]
     [] name = "route" ->      \* forwarding: incoming on c1 covers outgoing on c2; unbacked attempts
          [chans |-> {"c1", "c2"}, hashes |-> {"h1"},
           reqs |-> ChanReqs("c1", {<<>>, <<R("h1", 1)>>, <<R("h1", 2)>>}, FALSE)
